@@ -47,7 +47,7 @@ def run(ctx, f, rep):
                         owns = any(o["k"] == "move" and "Listener" in o["place"].get("ty", "") and not o["place"]["ty"].startswith("&") for o in st["rv"]["ops"])
         rep.check(owns, "R17.1", "R17.1|%s|owns-listener" % b.path, "the listener is owned by the accept task (dropping the task closes it)", b.loc())
         nstop = 0
-        for p in pathq.paths(f, b, max_visits=2):
+        for p in pathq.paths(f, b, max_visits=2, inline_async=True):
             feeds = acc.arm_feeds(p)
             # decisions on which select arm fired, in order
             fired = []
@@ -170,6 +170,14 @@ def run(ctx, f, rep):
         ok = any(fn and fn["name"] == "clear" and "HashMap" in fn["path"] for bb, t, fn in b.calls())
         rep.check(ok, "R17.3", "R17.3|queue-clear-drops-streams", "QueueInner::clear empties the stream map (drops every read half)", b.loc())
     # PUB reader: its stop sender lives in the subscriber entry
-    sub = [a for p_, a in f.adts.items() if p_.endswith("r#pub::Subscriber")]
+    # (the record type of the PUB backend's subscriber table: the local struct holding a subscription list and a write half,
+    # named in that table's type - whatever it and its module are called)
+    sub = []
+    for p_, a in f.adts.items():
+        if p_.split("::")[-1] == "PubSocketBackend" and a["kind"] == "Struct":
+            for fl in a["variants"][0]["fields"]:
+                if "scc::HashMap<" in fl["ty"]:
+                    sub = [a2 for p2, a2 in f.adts.items() if a2["kind"] == "Struct" and (p2.split("::", 1)[-1] in fl["ty"] or p2 in fl["ty"]) and
+                           any("Vec<std::vec::Vec<u8>>" in x["ty"] for x in a2["variants"][0]["fields"])]
     ok = bool(sub) and any("oneshot::Sender" in x["ty"] for x in sub[0]["variants"][0]["fields"])
     rep.check(ok, "R17.3", "R17.3|pub-reader-stop-in-entry", "the PUB reader task's stop sender is stored in the subscriber entry, so clearing the table stops the task (and releases its Arc of the backend)")
